@@ -35,7 +35,7 @@ def setup_shard(ctx):
 
 
 def plan(tier):
-    return {"cases": 120 if tier == "quick" else 2400, "shards": 8 if tier == "quick" else 14,
+    return {"cases": 120 if tier == "quick" else 1500, "shards": 8 if tier == "quick" else 14,
             "min_nontrivial": 2000, "timeout": 900 if tier == "quick" else 3000,
             "require": {"schedules": 8000, "yield_points": 300000, "lock_acquisitions": 50000,
                         "schedules_with_switch_inside": 2000, "sequential_outcome_sets": 40,
